@@ -1,7 +1,8 @@
 ---------------------------- MODULE Sb2RomTrace ----------------------------
 (* TV form of C04 (batch trace validation).  Three kinds of traces, one initial state per trace:               *)
 (*                                                                                                             *)
-(*  kind "rom"   : given = what was handed to the builder (header values, sections, abstract commands);        *)
+(*  kind "rom"   : given = what was handed to the builder (header values - the time stamp as the calendar value *)
+(*                 that was supplied, given.tsc, see Sb2Time - sections, abstract commands);                   *)
 (*                 ev = the events the independent executor logged on the exported bytes, one per automaton    *)
 (*                 step of Sb2Rom, interleaved with clause markers {ev:"Field", name} that ask for one         *)
 (*                 "header field carries the value supplied" clause each.  The trace is a behaviour iff the    *)
@@ -19,7 +20,10 @@
 (*                 (h.content, changed by the mutator actions only); every export is bound to the content at   *)
 (*                 that moment, i.e. the trace is a behaviour iff EVERY export of the history is accepted by   *)
 (*                 the ROM with header fields that describe the file and decodes what the object held then.    *)
-EXTENDS Sb2Rom, Sb2Operands, Json, IOUtils
+(*  Corruption classes of the tamper / wrongkek modes: one flipped bit per field class, a forged command with  *)
+(*  a repaired checksum, TRUNCATION (the file cut at every structural boundary - see CutsOk - and inside the   *)
+(*  parts) and EXTENSION (bytes appended).  A tampered "rom" / "anchor" trace must NOT be a behaviour.         *)
+EXTENDS Sb2Rom, Sb2Operands, Sb2Time, Json, IOUtils
 Traces == ndJsonDeserialize(IOEnv.TRACE_FILE)
 VARIABLES tid, l,
           pend,     \* clause markers that must be consumed next
@@ -57,7 +61,7 @@ FieldOk(n) ==
     [] n = "product_version"   -> hdr.pv = G.pv
     [] n = "component_version" -> hdr.cv = G.cv
     [] n = "build_number"      -> hdr.build = G.build
-    [] n = "timestamp"         -> hdr.ts = <<G.ts[1], G.ts[2], 0>>
+    [] n = "timestamp"         -> InDomain(G.tsc) /\ HeaderCarries(hdr.ts, G.tsc)      \* the supplied INSTANT in seconds since 2000-01-01 UTC (Sb2Time)
     [] n = "nonce"             -> hdr.nonce = G.nonce /\ hdr.nonceCtr = G.nonceCtr
     [] n = "section_id"        -> Len(dec) <= Len(G.secs) /\ dec[Len(dec)].uid = G.secs[Len(dec)].uid
     [] n = "hmac_count"        -> Len(dec) <= Len(G.secs) /\ dec[Len(dec)].hmacCount = Min(G.secs[Len(dec)].hmacReq, hm.count)
@@ -93,7 +97,13 @@ TCmd == /\ Is("Cmd") /\ Cmd(E)
 TSecEnd == /\ Is("SectionEnd") /\ SectionEnd(E)
            /\ (Bound /\ ~needCert => Len(dec[Len(dec)].cmds) = Len(G.secs[Len(dec)].cmds))     \* no command missing
            /\ UNCHANGED pend /\ NoP /\ Adv
+\* corruption class TRUNCATION: a clean trace may carry given.cuts = the byte positions at which the driver cut this file (every cut is a
+\* tampered file of its own: the automaton must refuse it, parse() must raise or return the reference content).  The clause: the driver has
+\* cut the file at EVERY structural boundary of the events the automaton consumed (machinery clause - a failure is the driver's, not SPSDK's)
+CutBlocks == {Tr.given.cuts[k] \div 16 : k \in {j \in 1..Len(Tr.given.cuts) : Tr.given.cuts[j] % 16 = 0}}
+CutsOk == (Tr.kind = "rom" /\ "cuts" \in DOMAIN Tr.given) => (BoundsOfAll(T) \ {hdr.fileBlocks}) \subseteq CutBlocks
 TAccept == /\ Is("Accept") /\ Accept(E) /\ (Bound => sec = Len(G.secs)) /\ UNCHANGED pend /\ NoP /\ AdvH     \* section for section
+           /\ Soft("cuts", CutsOk)
            /\ h' = [h EXCEPT !.idle = Hist]                                 \* history: the object may be used again
 
 \* ---- history of one live object: the calls between the exports.  Only the mutators change what the object holds; an export starts a new
